@@ -119,6 +119,9 @@ def run_observers(scn):
             fps.append(h.fingerprint())
         for j, sm in enumerate(sims):
             for st, step, name in sm.alias_violations[:1]:
+                if st == "seed":
+                    V.append(Violation("state-mutated-in-place", f"the run wrote into '{name}' of the Solution it was seeded with: the record of the finished run it continues has been altered", quantity=name, seed=True))
+                    continue
                 V.append(Violation("state-mutated-in-place", f"configuration {j}: update {st}{step} modified the array of '{name}' it was handed in place (values must be rebound, not mutated)", quantity=name))
         h0 = hs[0]
         if h0.outcome.startswith("rejected"):
